@@ -23,6 +23,8 @@ mod rx_syntax;
 mod rx_serial;
 mod refcodec;
 mod rx_filters;
+mod refcrypt;
+mod rx_crypt;
 
 fn main() {
     let args: Vec<String> = std::env::args().collect();
@@ -52,6 +54,7 @@ fn main() {
         "serial" => rx_serial::run(&args[2], &args[3], &opts),
         "filters" => rx_filters::run(&args[2], &args[3], &opts),
         "encoders" => rx_filters::run_encoders(&args[2], &args[3], &opts),
+        "crypt" => rx_crypt::run(&args[2], &args[3], &opts),
         "cache" => rx_cache::run(&args[2], &args[3], &opts),
         "widths" => rx_font::run_widths(&args[2], &args[3], &opts),
         "cmap" => rx_font::run_cmap(&args[2], &args[3], &opts),
